@@ -50,7 +50,7 @@ pub fn property() -> Property {
            Non-trivial = the writer was not created last, or loss > 0, or a fragmented sample, or a late \
            joiner with early samples. Distinct = distinct decoded configurations.",
     assumptions: &[
-      "bounds: match 40 s, delivery 40 s, unmatch 45 s (participant lease 10 s + clean-up period 2 s + slack); a case that misses a bound is run once more and reported only if it fails again",
+      "bounds: match 40 s, delivery 40 s, unmatch 45 s (participant lease 10 s + clean-up period 2 s + slack); a case that fails is run up to twice more with the same seed (which loses the same logical datagrams) and reported only if it fails again",
       "the thread schedule of the live participants is not controlled: a replay reproduces configuration and fault rate, not the interleaving",
       "datagram faults are applied by destination port (the case's domain), pseudo-randomly per datagram from the case seed; which datagram is hit depends on thread timing",
       "security-enabled configurations run only in the security build (scenario 1)",
@@ -495,16 +495,24 @@ pub fn run(_scenario: u32, choices: &[u8], strict: bool) -> Outcome {
       if clause == "c07.environment" {
         panic!("C07 environment: {detail}");
       }
-      // run it once more: only a failure that repeats is reported
+      // run it again (the same seed loses the same logical datagrams): only a failure that
+      // repeats in one of two further attempts is reported
       o.label("first-attempt-failed");
-      let mut o2 = Outcome::new();
-      match attempt(&cfg, choices, &mut o2) {
-        Ok(()) if !strict => {
+      let mut repeated: Option<Fail> = None;
+      for _ in 0..2 {
+        let mut o2 = Outcome::new();
+        if let Err(e) = attempt(&cfg, choices, &mut o2) {
+          repeated = Some(e);
+          break;
+        }
+      }
+      match repeated {
+        None if !strict => {
           o.label("unconfirmed-failure");
           o.sample.push_str(&format!(" | unconfirmed: {clause} {detail}"));
         }
-        Ok(()) => o.violate(&clause, &key, format!("(first of two attempts; the second passed) {detail}")),
-        Err((c2, k2, d2)) => o.violate(&c2, &k2, format!("{d2} | first attempt: {clause}: {detail}")),
+        None => o.violate(&clause, &key, format!("(first of three attempts; the others passed) {detail}")),
+        Some((c2, k2, d2)) => o.violate(&c2, &k2, format!("{d2} | first attempt: {clause}: {detail}")),
       }
     }
   }
